@@ -163,20 +163,20 @@ def getheaders_msg(version, locator, hash_stop):
 
 
 def headers_msg(headers, tx_counts=None):
-    out = compact_size(len(headers))
+    parts = [compact_size(len(headers))]
     for i, h in enumerate(headers):
         assert len(h) == 80
-        out += h + compact_size(0 if tx_counts is None else tx_counts[i])
-    return out
+        parts.append(h + compact_size(0 if tx_counts is None else tx_counts[i]))
+    return b"".join(parts)
 
 
 def inv_msg(items):
     """getdata / inv payload; items = [(type u32, hash[32])]"""
-    out = compact_size(len(items))
+    parts = [compact_size(len(items))]
     for t, h in items:
         assert len(h) == 32
-        out += struct.pack("<I", t) + h
-    return out
+        parts.append(struct.pack("<I", t) + h)
+    return b"".join(parts)
 
 
 def ping_msg(nonce):
